@@ -350,6 +350,8 @@ type srvListen struct {
 	retErr error
 	// gate, if set, holds the relay's Send on this stream (a listener that reads slowly) until it is closed
 	gate chan struct{}
+	// forward, if set, receives every response the relay sends (bridge: on to the real client)
+	forward func(*signaling.ListenResponse)
 }
 
 // setGate installs (or with nil removes) the Send gate.
@@ -411,7 +413,11 @@ func (s *srvListen) Send(m *signaling.ListenResponse) error {
 	}
 	s.mu.Lock()
 	s.events = append(s.events, ev)
+	fw := s.forward
 	s.mu.Unlock()
+	if fw != nil {
+		fw(m)
+	}
 	return nil
 }
 func (s *srvListen) log() []event {
